@@ -34,6 +34,13 @@ def lean_part(rep, pid):
 
 def finish_proof(rep, lean, found_input):
     """A broken proof obligation is a violation even without a failing input."""
+    from .. import corr as K
+    if K.UNSUPPORTED:
+        missing = sorted(set(h for cfg in K.UNSUPPORTED for h in C.missing_helpers(cfg)))
+        rep.coverage["unsupported_lines"] = dict(K.UNSUPPORTED)
+        rep.broken_obligation("helper", "the static helper(s) behind the harness command(s) %s no longer exist in the source with the signature the harness "
+                              "calls (renamed, inlined or changed): %d protocol lines of this check could not be run, so this part of the tie between model "
+                              "and code is not checked" % (", ".join(missing), sum(K.UNSUPPORTED.values())), False)
     for f in lean["failures"]:
         rep.broken_obligation("lean", f, found_input)
     # correspondence breaks recorded with found_input=False get upgraded when an input was found
